@@ -1076,3 +1076,125 @@ Qed.
 
 Lemma fr_ann_local_name : forall ic n src, lookup n ic = Some src -> fst (fr_ann ic (AName n)) = AConst n.
 Proof. intros ic n src H. simpl. rewrite H. reflexivity. Qed.
+
+(* ================================================================== 13. reserved names: no argument is named like a constant *)
+Lemma max_len_ge : forall l s, In s l -> String.length s <= max_len l.
+Proof.
+  induction l as [|x r IH]; intros s H; [contradiction|]. simpl. destruct H as [<-|H]; [lia|].
+  specialize (IH s H). lia.
+Qed.
+
+Lemma long_not_mem : forall bad name, max_len bad < String.length name -> mem name bad = false.
+Proof.
+  intros bad name H. destruct (mem name bad) eqn:E; [|reflexivity].
+  apply mem_In in E. apply max_len_ge in E. lia.
+Qed.
+
+Lemma string_app_length : forall a b, String.length (a ++ b)%string = String.length a + String.length b.
+Proof. induction a as [|c r IH]; intros b; simpl; [reflexivity|]. rewrite IH. reflexivity. Qed.
+
+Lemma length_append_us : forall s, String.length (s ++ "_")%string = S (String.length s).
+Proof. intros s. rewrite string_app_length. simpl. lia. Qed.
+
+Lemma avoid_spec : forall fuel bad name,
+  max_len bad < fuel + String.length name -> mem (avoid fuel bad name) bad = false.
+Proof.
+  induction fuel as [|k IH]; intros bad name H; simpl.
+  - apply long_not_mem. simpl in H. exact H.
+  - destruct (mem name bad) eqn:E; [|exact E].
+    apply IH. rewrite length_append_us. lia.
+Qed.
+
+Theorem avoid_all_spec : forall bad name, mem (avoid_all bad name) bad = false.
+Proof. intros. unfold avoid_all. apply avoid_spec. lia. Qed.
+
+Theorem avoid_all_id : forall bad name, mem name bad = false -> avoid_all bad name = name.
+Proof. intros bad name H. unfold avoid_all. simpl. rewrite H. reflexivity. Qed.
+
+(* the loop returns the name itself or the name with underscores appended *)
+Definition ends_us (s : string) : Prop := exists t, s = (t ++ "_")%string.
+
+Lemma avoid_shape : forall fuel bad name, avoid fuel bad name = name \/ ends_us (avoid fuel bad name).
+Proof.
+  induction fuel as [|k IH]; intros bad name; simpl; [left; reflexivity|].
+  destruct (mem name bad); [|left; reflexivity].
+  destruct (IH bad (name ++ "_")%string) as [->|H]; right; [exists name; reflexivity|exact H].
+Qed.
+
+Definition last_char (s : string) : option ascii := last (map Some (s2l s)) None.
+
+Lemma last_char_app : forall a b c, last_char (a ++ String c b)%string = last_char (String c b).
+Proof.
+  intros a b c. unfold last_char. induction a as [|x r IH]; [reflexivity|].
+  simpl. simpl in IH. rewrite <- IH. unfold s2l. simpl.
+  destruct (list_ascii_of_string (r ++ String c b)) eqn:E; [|reflexivity].
+  destruct r; discriminate.
+Qed.
+
+Lemma ends_us_last : forall s, ends_us s -> last_char s = Some "_"%char.
+Proof. intros s [t ->]. rewrite last_char_app. reflexivity. Qed.
+
+Lemma const_name_last : forall n, last_char (const_name n) = Some "L"%char.
+Proof. intros n. unfold const_name. change "_GQL" with (String "_" "GQL"). rewrite last_char_app. reflexivity. Qed.
+
+(* every name the arguments loop hands out is fresh w.r.t. the reserved names and the names handed out before *)
+Theorem assign_names_fresh : forall hook processed used n,
+  In n (assign_names hook used processed) -> mem n used = false.
+Proof.
+  intros hook. induction processed as [|p r IH]; intros used n H; simpl in H; [contradiction|].
+  destruct H as [<-|H]; [apply avoid_all_spec|].
+  specialize (IH _ _ H). unfold mem in *. simpl in IH. apply orb_false_iff in IH. apply IH.
+Qed.
+
+Theorem assign_names_nodup : forall hook processed used, NoDup (assign_names hook used processed).
+Proof.
+  intros hook. induction processed as [|p r IH]; intros used; simpl; constructor.
+  - intro H. apply assign_names_fresh in H. unfold mem in H. simpl in H. rewrite String.eqb_refl in H. discriminate.
+  - apply IH.
+Qed.
+
+(* THE point of /repo edeb7cc: with ExtractOperations' hook, no argument of a generated method is named like one of
+   the extracted constants — so `query=X_GQL` inside the method always denotes the module constant.  Needs only that
+   constants are const_name's (they end in "L", an appended underscore can never produce one). *)
+Theorem names_avoid_constants : forall st used processed n,
+  (forall c, In c (ex_constants st) -> exists op, c = const_name op) ->
+  In n (assign_names (ex_process_name st) used processed) -> mem n (ex_constants st) = false.
+Proof.
+  intros st used processed n Hc. revert used. induction processed as [|p r IH]; intros used H; simpl in H; [contradiction|].
+  destruct H as [<-|H]; [|eapply IH; exact H].
+  unfold avoid_all at 1. destruct (avoid_shape (S (max_len used)) used (ex_process_name st p)) as [->|Hus].
+  - apply avoid_all_spec.
+  - destruct (mem (avoid (S (max_len used)) used (ex_process_name st p)) (ex_constants st)) eqn:E; [|reflexivity].
+    apply mem_In in E. destruct (Hc _ E) as [op Hop]. apply ends_us_last in Hus. rewrite Hop, const_name_last in Hus.
+    discriminate.
+Qed.
+
+(* outside the former finding class (no processed name is a constant) the hook changes nothing *)
+Theorem process_name_id_outside_class : forall st hook_free used processed,
+  hook_free = (fun s : string => s) ->
+  (forall p, In p processed -> mem p (ex_constants st) = false) ->
+  assign_names (ex_process_name st) used processed = assign_names hook_free used processed.
+Proof.
+  intros st hook_free used processed -> . revert used. induction processed as [|p r IH]; intros used H; simpl; [reflexivity|].
+  assert (Hp : ex_process_name st p = p) by (unfold ex_process_name; apply avoid_all_id, H; left; reflexivity).
+  rewrite Hp. f_equal. apply IH. intros q Hq. apply H. right; exact Hq.
+Qed.
+
+(* the constants ExtractOperations records ARE const_name's *)
+Lemma ex_record_constants : forall st op c,
+  (forall c0, In c0 (ex_constants st) -> exists o, c0 = const_name o) ->
+  In c (ex_constants (ex_record st op)) -> exists o, c = const_name o.
+Proof.
+  intros st [n s] c H Hc. unfold ex_constants, ex_record in *. simpl in Hc.
+  apply in_map_iff in Hc. destruct Hc as [[k v] [<- Hin]]. simpl.
+  assert (G : forall l, (forall kv, In kv l -> exists o, snd kv = const_name o) ->
+              forall kv, In kv (dict_set n (const_name n) l) -> exists o, snd kv = const_name o).
+  { induction l as [|[k0 v0] r IHl]; intros Hl kv Hkv; simpl in Hkv.
+    - destruct Hkv as [<-|[]]. exists n. reflexivity.
+    - destruct (String.eqb n k0).
+      + destruct Hkv as [<-|Hkv]; [exists n; reflexivity|apply Hl; right; exact Hkv].
+      + destruct Hkv as [<-|Hkv]; [apply Hl; left; reflexivity|].
+        apply IHl; [intros kv0 H0; apply Hl; right; exact H0|exact Hkv]. }
+  apply (G (ex_vars st)) in Hin; [exact Hin|].
+  intros kv Hkv. apply H. apply in_map. exact Hkv.
+Qed.
